@@ -18,7 +18,7 @@ trait MT {
 #[derive(Clone, Debug)]
 pub struct W(pub u8);
 impl PartialEq for W {
-    fn eq(&self, o: &W) -> bool { self.0 == o.0 || o.0 == 3 }
+    fn eq(&self, o: &W) -> bool { (self.0 == o.0 && self.0 != 1) || o.0 == 3 }      // not reflexive at 1: equal Debug renderings, unequal values
     #[allow(clippy::partialeq_ne_impl)]
     fn ne(&self, o: &W) -> bool { self.0 != o.0 && self.0 != 2 }
 }
